@@ -1,4 +1,5 @@
 """C15 An unreadable or vanishing file affects only itself (shape F, engine E1 fail@k on read-side calls)."""
+import itertools
 import os
 
 from .. import common as C
@@ -9,11 +10,12 @@ ID = "C15"
 LEVEL = "fault_enumeration"
 RULE = ("trees {three classes incl. a 131073-byte class that reaches the suffix and content stages under the SSD pin, nested "
         "directories, a hard link; the same with file/directory symlinks and -L; a tree on ext4 under the HDD pin so that "
-        "FIEMAP is issued; a small tree under the 'unknown' pin}, `group -t 1`; the read-side call history (stat, lstat, "
+        "FIEMAP is issued; a small tree under the 'unknown' pin}, `group -t 1` (two of the trees also with --unique, "
+        "--rf-under 3 and --rf-over 0); the read-side call history (stat, lstat, "
         "open, every read, opendir, every readdir, readlink, realpath, FIEMAP ioctl) is recorded twice (must be "
         "identical); then EVERY event k fails with EACCES, EIO and ENOENT (thorough: also every pair k1<k2 for the small "
-        "tree). Oracle: exit 0 and a parsable report whose groups equal the fault-free groups minus a subset S of the "
-        "entries affected by the failing call (the path and its other links; the sub-tree for a directory call), S empty "
+        "tree). Oracle: exit 0 and a parsable report that equals the reference result (partition + replication filter) of the "
+        "tree without some subset S of the entries affected by the failing call (the path and its other links; the sub-tree for a directory call), S empty "
         "for FIEMAP faults and probes of absent ignore files; a warning unless the errno is ENOENT; every reported group "
         "byte-identical. distinct_nontrivial = distinct (tree, k, errno) reached.")
 ASSUMPTIONS = ["faults on the stat/realpath of an input path itself before the walk starts are input validation, not "
@@ -51,6 +53,11 @@ def prepare(tier):
 
 def cases(tier, seed):
     out = [{"tree": t, "pairs": False, "tier": tier} for t in TREES]
+    # the same question when unique / under-replicated files are searched: an unreadable file must not be reported
+    # as unique, and its former duplicates must be judged as if it were absent
+    for flt in (["--unique"], ["--rf-under", "3"], ["--rf-over", "0"]):
+        out.append({"tree": "main_ssd", "pairs": False, "tier": tier, "filter": flt})
+        out.append({"tree": "small_unknown", "pairs": False, "tier": tier, "filter": flt})
     if tier == "thorough":
         out.append({"tree": "small_unknown", "pairs": True, "tier": tier})
     return out
@@ -63,7 +70,8 @@ def evaluate(case):
     evals = 0
     with C.Scratch(C.EXT4 if ext4 else None) as sc:
         C.make_tree(sc.tree, entries)
-        args = ["group", "-t", "1", "--min", "0", "-f", "json"] + gargs + ["r"]
+        flt = case.get("filter", [])
+        args = ["group", "-t", "1", "--min", "0", "-f", "json"] + gargs + flt + ["r"]
         env = {"FCLONES_VERIF_DISK_KIND": disk}
         rec = S.run_with_shim(sc, args, [sc.tree], "r", env_extra=env)
         rec2 = S.run_with_shim(sc, args, [sc.tree], "r", env_extra=env)
@@ -86,6 +94,19 @@ def evaluate(case):
                 except OSError:
                     pass
         root_abs = os.path.join(sc.tree, "r")
+        # which files does a fault-free run scan at all? (ask the binary with --rf-over 0; the scan itself is C09's subject)
+        rc0, out0, err0, to0 = C.fclones(["group", "-t", "1", "--min", "0", "-f", "json", "--rf-over", "0"] + gargs + ["r"],
+                                         sc, env_extra=env)
+        scanned = set(os.path.normpath(C.u(p)) for g in C.parse_json_report(out0).groups for p in g["paths"])
+        ref_all = {"files": {p: {"dev": info[p][0][0], "ino": info[p][0][1], "len": len(info[p][1]), "data": info[p][1],
+                                 "root": 0} for p in scanned if p in info}, "roots": [root_abs]}
+
+        def expected_for(drop):
+            ref = {"files": {p: f for p, f in ref_all["files"].items() if p not in drop}, "roots": ref_all["roots"]}
+            return set(e["paths"] for e in G.expected_groups(ref, {"args": ["--min", "0"] + flt}) if e["reported"])
+        if expected_for(set()) != set(base_groups):
+            raise C.MachineryError("reference model disagrees with the fault-free run for %s %s: %s vs %s" % (
+                case["tree"], flt, sorted(map(sorted, expected_for(set()))), sorted(map(sorted, base_groups))))
 
         def affected_by(ev):
             p = ev.path
@@ -136,7 +157,7 @@ def evaluate(case):
                     "second_fault": k2 is not None}
             ctx = "%s event %d %r errno %s%s" % (case["tree"], k, ev, e, " + EIO at event %d of the faulted run" % k2 if k2 is not None else "")
             rc_case = dict(case, only=[k, e, k2])
-            reached.append([case["tree"], k, e, k2])
+            reached.append([case["tree"], " ".join(case.get("filter", [])), k, e, k2])
             if res["timeout"]:
                 viol.append(dict(feat, kind="hang", detail=ctx, replay_case=rc_case))
                 continue
@@ -164,23 +185,30 @@ def evaluate(case):
                     a2, same2 = affected_by(hit[0])
                     aff = aff | a2
                     must_be_same = must_be_same and same2
-            base_paths = set().union(*base_groups) if base_groups else set()
-            obs_paths = set().union(*obs_groups) if obs_groups else set()
-            dropped = (base_paths - obs_paths) & aff
-            expected = set()
-            for g in base_groups:
-                rest = g - dropped
-                if len(set(info[p][0] for p in rest if p in info)) > 1:
-                    expected.add(rest)
-            if set(obs_groups) != expected:
-                viol.append(dict(feat, kind="other_files_affected",
-                                 detail="%s: groups %s; expected the fault-free groups %s minus a subset of %s" % (
-                                     ctx, sorted(map(sorted, obs_groups)), sorted(map(sorted, base_groups)), sorted(aff)),
+            aff_scanned = sorted(a for a in aff if a in ref_all["files"])
+            if must_be_same:
+                candidates = [frozenset()]
+            elif len(aff_scanned) <= 6:
+                candidates = [frozenset(c) for n in range(len(aff_scanned) + 1) for c in itertools.combinations(aff_scanned, n)]
+            else:
+                obs_paths = set().union(*obs_groups) if obs_groups else set()
+                base_paths = set().union(*base_groups) if base_groups else set()
+                candidates = [frozenset(), frozenset(aff_scanned), frozenset((base_paths - obs_paths) & set(aff_scanned)),
+                              frozenset(a for a in aff_scanned if a not in obs_paths)]
+            accepted = None
+            for cand in candidates:
+                if expected_for(cand) == set(obs_groups):
+                    accepted = cand
+                    break
+            if accepted is None:
+                viol.append(dict(feat, kind="other_files_affected", filter=" ".join(flt) or "default",
+                                 detail="%s: groups %s; expected the fault-free result %s or the result of the tree without a subset of %s" % (
+                                     ctx, sorted(map(sorted, obs_groups)), sorted(map(sorted, base_groups)), aff_scanned),
                                  replay_case=rc_case))
-            elif dropped and must_be_same:
-                viol.append(dict(feat, kind="harmless_fault_dropped_files", detail="%s: dropped %s" % (ctx, sorted(dropped)), replay_case=rc_case))
-            elif dropped and e != "ENOENT" and k2 is None and " warn:" not in res["err"]:
-                viol.append(dict(feat, kind="no_warning", detail="%s: dropped %s without a warning" % (ctx, sorted(dropped)), replay_case=rc_case))
+            elif accepted and e != "ENOENT" and k2 is None and " warn:" not in res["err"]:
+                viol.append(dict(feat, kind="no_warning", filter=" ".join(flt) or "default",
+                                 detail="%s: result equals the tree without %s, but no warning was logged" % (ctx, sorted(accepted)),
+                                 replay_case=rc_case))
     calls = sorted(set(ev.call for ev in events))
     return {"violations": viol, "evaluations": evals, "nontrivial": reached, "outcome": "explored",
             "counters": dict(("events_" + c, sum(1 for ev in events if ev.call == c)) for c in calls),
